@@ -12,6 +12,9 @@ ROOT = os.path.dirname(os.path.dirname(os.path.abspath(__file__)))
 ids = [c["property_id"] for c in json.load(open(os.path.join(ROOT, "MANIFEST.json")))["checks"]]
 args = sys.argv[1:]
 jobs = 3
+diag = False
+if args[:1] == ["--diag"]:      # every change against the check of its own property only
+    diag = True; args = args[1:]
 if args[:1] == ["-j"]:
     jobs = int(args[1]); args = args[2:]
 seeds = args or sorted(d for d in os.listdir(os.path.join(ROOT, "seeded")) if os.path.isfile(os.path.join(ROOT, "seeded", d, "patch.diff")))
@@ -30,7 +33,7 @@ def one(seed):
         subprocess.run(["git", "-C", "/repo", "worktree", "add", "-q", "--detach", wt, "HEAD"], check=True)
         subprocess.run(["git", "-C", wt, "apply", os.path.join(ROOT, "seeded", seed, "patch.diff")], check=True)
         env = dict(os.environ, VERIF_REPO=wt, VERIF_OUT=os.path.join(base, "out"), VERIF_SCRATCH_BASE=base)
-        for cid in ids:
+        for cid in ([seed.split("-")[-1]] if diag else ids):
             t = time.time()
             p = subprocess.run([os.path.join(SNAP, "bin", "check"), cid, "--tier", "quick"], env=env,
                                stdout=subprocess.PIPE, stderr=subprocess.STDOUT, text=True)
@@ -44,6 +47,16 @@ def one(seed):
 
 with cf.ThreadPoolExecutor(jobs) as ex:
     rows = dict(ex.map(one, seeds))
+if diag:
+    out = ["# every seeded change against the quick check of the property it was written against (rc: 1 alarm, 0 quiet, 2 inconclusive)", "",
+           "| seed | check | rc | seconds |", "|---|---|---|---|"]
+    for s in seeds:
+        c = s.split("-")[-1]
+        out.append("| %s | %s | %s | %s |" % (s, c, rows[s].get(c, ("-", "-"))[0], rows[s].get(c, ("-", "-"))[1]))
+    open(os.path.join(ROOT, "seeded", "DIAGONAL.md"), "w").write("\n".join(out) + "\n")
+    shutil.rmtree(SNAP, ignore_errors=True)
+    print("\n".join(out))
+    sys.exit(0)
 out = ["# seeded change x quick check (rc: 1 alarm, 0 quiet, 2 inconclusive)", "",
        "| seed \\\\ check | " + " | ".join(i[1:] for i in ids) + " |", "|---|" + "---|" * len(ids)]
 for s in seeds:
